@@ -15,7 +15,7 @@ OPTS = {'quick': {'selfcheck_mod': 25, 'budget_s': 280}, 'thorough': {'selfcheck
 STEP_LIMIT = 120_000
 NATIVE_TIMEOUT = 5.0
 BOUNDS = {
-    'quick': 'append(T1..Tn, Out), n = 1-3, each Ti from: a, symbolic i64, f(a), [], [b], [b, c], [[b]], [b, []], [b | $T] with $T bound to [c] or [], each also through a variable bound to it '
+    'quick': 'append(T1..Tn, Out), n = 1-3, each Ti from: a, symbolic i64, f(a), [], [b], [b, c], [[b]], [b, []], [b | $T] with $T bound to [c] or [], bound through a second variable, or bound to a list that itself ends in a bound tail, each also through a variable bound to it '
              '(directly or via a second variable); Out unbound, bound to the right list, bound to a wrong list; asked twice; 120k-statement step limit (a spin shows as a hang)',
     'thorough': 'n up to 4 and tails bound through a chain of two variables',
 }
@@ -23,7 +23,8 @@ OUTSIDE = 'lists with an unbound tail variable as append input; arguments that a
 ASSUMPTIONS = ['Out is compared after full resolution, so it does not matter whether elements are stored as bound variables or as their values']
 
 ARGS = [['a'], ['i'], ['f', ['a']], ['e'], ['l', 'p', [['b']], None], ['l', 'p', [['b'], ['q', 'c']], None], ['l', 'p', [['l', 'p', [['b']], None]], None],
-        ['l', 'p', [['b'], ['e']], None], ['bt', [['b']], [['q', 'c']]], ['bt', [['b']], []]]
+        ['l', 'p', [['b'], ['e']], None], ['bt', [['b']], [['q', 'c']]], ['bt', [['b']], []],
+        ['btc', [['b']], [['q', 'c'], ['q', 'd']]], ['btn', [['b']], [['q', 'c']], [['q', 'd'], ['e']]]]
 
 
 def cases(tier, seed):
@@ -41,6 +42,8 @@ def cases(tier, seed):
 
 def txt(a):
     if a[0] == 'bt': return '[%s | $T=%s]' % (', '.join(U.text(x) for x in a[1]), '[' + ', '.join(U.text(x) for x in a[2]) + ']')
+    if a[0] == 'btc': return '[%s | $T->$U=%s]' % (', '.join(U.text(x) for x in a[1]), '[' + ', '.join(U.text(x) for x in a[2]) + ']')
+    if a[0] == 'btn': return '[%s | $T=[%s | $U=%s]]' % (', '.join(U.text(x) for x in a[1]), ', '.join(U.text(x) for x in a[2]), '[' + ', '.join(U.text(x) for x in a[3]) + ']')
     return U.text(a)
 
 
@@ -50,12 +53,24 @@ def run(drv, case):
     terms, want = [], []
     tags = set()
     for i, (a, chain) in enumerate(case['args']):
-        if a[0] == 'bt':
+        if a[0] in ('bt', 'btc', 'btn'):
             tv = env.var('$T')
-            env.bind(tv, ('plist', tuple(U.inst(m, x, 'a%d.t' % i) for x in a[2]), None))
             head = tuple(U.inst(m, x, 'a%d.h' % i) for x in a[1])
+            if a[0] == 'bt':
+                env.bind(tv, ('plist', tuple(U.inst(m, x, 'a%d.t' % i) for x in a[2]), None))
+                rest = list(a[2])
+            elif a[0] == 'btc':     # the tail variable is bound to another variable, which is bound to the list
+                uv = env.var('$U')
+                env.bind(uv, ('plist', tuple(U.inst(m, x, 'a%d.t' % i) for x in a[2]), None))
+                env.bind(tv, uv)
+                rest = list(a[2])
+            else:                   # the tail is bound to a list that itself ends in a bound tail variable
+                uv = env.var('$U')
+                env.bind(uv, ('plist', tuple(U.inst(m, x, 'a%d.u' % i) for x in a[3]), None))
+                env.bind(tv, ('plist', tuple(U.inst(m, x, 'a%d.t' % i) for x in a[2]), uv))
+                rest = list(a[2]) + list(a[3])
             t = ('plist', head, tv)
-            want += [build_pterm(x) for x in head] + [build_pterm(U.inst(m, x, 'a%d.t' % i)) for x in a[2]]
+            want += [build_pterm(x) for x in head] + [build_pterm(U.inst(m, x, 'a%d.r' % i)) for x in rest]
             tags.add('bound-tail')
         else:
             t = U.inst(m, a, 'a%d' % i)
